@@ -68,7 +68,7 @@ fn c14s(args: &Args) -> ! {
     let configs: Vec<(usize, usize, usize)> = if thorough {
         vec![(1, 1, 2), (1, 2, 3), (1, 3, 4), (1, 4, 4), (1, 4, 5), (2, 4, 4), (2, 2, 3), (3, 2, 4), (2, 1, 3), (1, 4, 103), (1, 2, 103), (2, 3, 5), (1, 3, 5)]
     } else {
-        vec![(1, 1, 2), (1, 2, 3), (1, 4, 4), (2, 4, 3), (2, 2, 3), (3, 2, 4), (1, 3, 5), (1, 4, 103)]
+        vec![(1, 1, 2), (1, 2, 3), (1, 4, 4), (2, 4, 3), (2, 2, 3), (3, 2, 4), (1, 3, 5), (1, 2, 103)]
     };
     let t_start = Instant::now();
     let budget = Duration::from_secs(if thorough { 1200 } else { 25 });
